@@ -40,6 +40,9 @@ def run_family(prop, family, tier, sizes_q, sizes_t, modes, l1, l3_calls, text, 
     l3s = l3_sizes or ([999999, 1000000, 1000003, 1048575, 1048576, 1048579] + ([100000, 10000000] if thorough else []))
     # byte-aligned lengths above 2^16 bits of different sizes (65544, 98304, 131072 bits): buffers kept between calls
     l3s = list(l3s) + [x for x in (65544, 98304, 131072) if x not in l3s]
+    # above 2^22 bits (where an implementation may start to split the work over goroutines); the driver repeats every input
+    # with three and seven processors visible to the runtime
+    l3s += [4194304, 4194309]
     l3modes = ["uni", "bias", "runsbias", "periodic"] + (["heavy", "dombyte", "step", "alt", "halves", "onehot", "const1"] if thorough else ["heavy"])
     iid = 0
     for n in l3s:
